@@ -48,6 +48,24 @@ def load_known():
     return known, fixed
 
 
+def match_known(pid, v, known):
+    """A violation is a known finding only if it is the listed obligation / the listed check with the listed witness
+    marker; any other violation of the same property is still reported."""
+    import fnmatch
+    for k in known:
+        if k.get("property") != pid:
+            continue
+        if v["kind"] == "obligation":
+            if any(fnmatch.fnmatch(v["obligation"], pat) for pat in k.get("obligations", [])):
+                return k
+        elif k.get("check") == v.get("check"):
+            need = k.get("witness_contains", [])
+            txt = json.dumps(v.get("witness"), default=str)
+            if need and all(x in txt for x in need):
+                return k
+    return None
+
+
 def run_harness(pid, tier, seed, budget_s):
     """Bounded stand-in: contracts on sidecar wrappers of the real functions, checked at run time."""
     mod = os.path.join(ROOT, "harness", f"{pid.lower()}.py")
@@ -162,13 +180,7 @@ def main():
     n_viol = 0
     for v in violations:
         key = v.get("obligation") or v.get("check", "bounded")
-        witness = v.get("witness")
-        match = None
-        for k in known:
-            if k["property"] == pid and k.get("obligation", k.get("check")) == key \
-                    and (k.get("witness") is None or k.get("witness") == witness or v["kind"] == "obligation"):
-                match = k
-                break
+        match = match_known(pid, v, known)
         if match:
             known_lines.append(f'KNOWN-FINDING: property={pid} {match["what"]}')
             continue
